@@ -776,7 +776,7 @@ def g_subn_case(case, ms, rec) -> str:
 
 
 HEADER = ("From Coq Require Import String List ZArith Uint63.\nImport ListNotations.\nOpen Scope Z_scope.\n"
-          "Require Import Pyrefact.Base Pyrefact.SchedModel Pyrefact.SubstModel.\n"
+          "Require Import Pyrefact.Base Pyrefact.SchedModel Pyrefact.SubstModel Pyrefact.SubstCases.\n"
           "Notation T := text_of_string.\nNotation TP := text_of_packed.\n")
 
 
